@@ -283,7 +283,7 @@ func eciesSection(x *h.X) {
 			si = x.Choose("salt", 3)
 			cells := allCells(2, 2)
 			if hi == 0 && di == 0 {
-				cells = append(cells, extraIDCells(len(idl))...)
+				cells = append(cells, extraIDCells(len(idl), true)...)
 			}
 			cl = cells[x.Choose("variant/id/path/keypair", len(cells))]
 		default:
